@@ -1416,6 +1416,66 @@ func main() {
 	}
 	b.WriteString("].\n")
 
+	// slice discipline of decode_data.go (normal form): the SET of ways slices are made, grown and
+	// re-sliced.  Returned objects stay unmodified because every slice handed out was made for
+	// its object (make), grown only while the object is still the decoder's (append to n.Tags /
+	// dec.q) and re-sliced only to length 0 on the reject path; any other re-slicing (x[:n], x[n:])
+	// or a new append target shows up here.
+	{
+		ops := map[string]bool{}
+		target := func(e ast.Expr) string {
+			switch x := e.(type) {
+			case *ast.SelectorExpr:
+				return "." + x.Sel.Name
+			case *ast.Ident:
+				return "local"
+			}
+			return "expr"
+		}
+		for fname, fd := range fi.funcs { // per function of the normal form (helpers live inlined in their callers)
+			fname := fname
+			ranged := map[ast.Expr]bool{} // a slice expression that is only iterated over (for ... range x[i:]) writes nothing
+			ast.Inspect(fd, func(n ast.Node) bool {
+				if rs, ok := n.(*ast.RangeStmt); ok {
+					ranged[rs.X] = true
+				}
+				return true
+			})
+			ast.Inspect(fd, func(n ast.Node) bool {
+				switch x := n.(type) {
+				case *ast.CallExpr:
+					if id, ok := x.Fun.(*ast.Ident); ok && len(x.Args) > 0 {
+						switch id.Name {
+						case "make":
+							shape := "len"
+							if len(x.Args) == 3 {
+								shape = "len+cap"
+							}
+							ops[fname+": make "+render(x.Args[0])+" "+shape] = true
+						case "append":
+							ops[fname+": append "+target(x.Args[0])] = true
+						}
+					}
+				case *ast.SliceExpr:
+					if bl, ok := x.High.(*ast.BasicLit); ok && x.Low == nil && x.Max == nil && bl.Value == "0" {
+						ops[fname+": slice[:0]"] = true // whatever is truncated (field or a local copy of it): length 0
+					} else if ranged[ast.Expr(x)] {
+						// read-only iteration
+					} else {
+						ops[fname+": reslice "+render(x)] = true
+					}
+				}
+				return true
+			})
+		}
+		var l []string
+		for k := range ops {
+			l = append(l, k)
+		}
+		sort.Strings(l)
+		fmt.Fprintf(&b, "\n(* how decode_data.go makes, grows and re-slices slices (a set) *)\nDefinition slice_ops : list string := %s.\n", coqList(l))
+	}
+
 	// ---------- decode.go: decodeOSMHeader ----------
 	dfile := parseFile(filepath.Join(repo, "osmpbf", "decode.go"))
 	inlineFile(dfile)
